@@ -215,6 +215,22 @@ func init() {
 			}
 			return bufconfig.PutBufWorkYAMLFileForPrefix(ctx, d.bucket, ".", f)
 		}},
+		&writePath{name: "PutBufYAMLFile", run: func(ctx context.Context, c *caseData, d *dest) error {
+			text := "version: v2\nmodules:\n  - path: proto\n    name: buf.build/acme/x\n  - path: vendor\nlint:\n  use:\n    - STANDARD\n  except:\n    - COMMENT_FIELD\n"
+			f, err := bufconfig.ReadBufYAMLFile(strings.NewReader(text), "buf.yaml")
+			if err != nil {
+				return fmt.Errorf("harness: %w", err)
+			}
+			return bufconfig.PutBufYAMLFileForPrefix(ctx, d.bucket, "ws", f)
+		}},
+		&writePath{name: "PutBufGenYAMLFile", run: func(ctx context.Context, c *caseData, d *dest) error {
+			text := "version: v2\nplugins:\n  - local: protoc-gen-a\n    out: gen/a\n  - local: protoc-gen-b\n    out: gen/b\n    opt: paths=source_relative\n"
+			f, err := bufconfig.ReadBufGenYAMLFile(strings.NewReader(text))
+			if err != nil {
+				return fmt.Errorf("harness: %w", err)
+			}
+			return bufconfig.PutBufGenYAMLFileForPrefix(ctx, d.bucket, ".", f)
+		}},
 		&writePath{name: "PluginResponseWriter(dir)", osOnly: true, run: func(ctx context.Context, c *caseData, d *dest) (retErr error) {
 			// generated files are staged in memory and flushed on Close
 			w := bufprotopluginos.NewResponseWriter(slogext.NopLogger, d.provider, bufprotopluginos.ResponseWriterWithCreateOutDirIfNotExists())
@@ -512,7 +528,11 @@ func Run(tp *tape.Tape, env *engine.Env) *engine.Outcome {
 			dec.Arg = 1 + tp.Draw("short", in.p.size-1)
 		}
 		inject := map[string]sched.Decision{in.p.key: dec}
-		if env.Tier == "thorough" && len(refPol.seen) > 1 && tp.Draw("pair", 3) == 1 {
+		pairOdds := 8
+		if env.Tier == "thorough" {
+			pairOdds = 3
+		}
+		if len(refPol.seen) > 1 && tp.Draw("pair", pairOdds) == 1 {
 			// a second fault somewhere else
 			q := refPol.seen[tp.Draw("pairpos", len(refPol.seen))]
 			if ks := faultKindsFor(c, q.kind); len(ks) > 0 && q.key != in.p.key {
